@@ -79,6 +79,9 @@ def dist_plans(quick, rng):
     occ2 = [(1, 1), (2, 0), (0, 2)]
     ph = [DR.uniform_photons(o, a, b, 3) for o in occ2 for (a, b) in ((4, 3), (3, 4), (1, 1))]
     plans.append((2, 3, ph if not quick else rng.sample(ph, 5), 4, 2, True))
+    # a bunched mode interfering with another occupied mode (three photons, four internal components)
+    ph = [DR.uniform_photons((2, 1), 4, 3, 4), DR.uniform_photons((1, 2), 1, 1, 4)] + ([DR.uniform_photons((2, 1), 3, 4, 4), DR.uniform_photons((3, 0), 4, 3, 4)] if not quick else [])
+    plans.append((2, 4, ph, 3, 1 if quick else 2, False))
     # general Gram matrices (two internal components): real and complex overlaps, 3 photons
     vec3 = [[(1, 0), (4, 3), (0, 1)], [(1, 0), (4, 3j), (3, 4)], [(1, 1), (1, 0), (1, -1)]]
     if quick:     # always a bunched mode preceded by a singly occupied one, and the other way round
